@@ -126,7 +126,14 @@ def setup(ex, fi, con):
         self_val = vref(st, scls)
         ex.assume(st != 0)
         ex.assume(ex.alloc[st])
-        ex.assume(is_instance(st, scls))
+        # the receiver is an instance of a class that actually runs this body (inherits the method without overriding it)
+        runs_here = [c for c in src.subclasses(scls) if src.resolve_method(c, fi.name) is fi] if scls in src.CLASSES else []
+        if scls in src.CLASSES and scls not in runs_here and src.resolve_method(scls, fi.name) is fi:
+            runs_here.append(scls)
+        if runs_here:
+            ex.assume(z3.Or([typeof(st) == class_id(c) for c in sorted(runs_here)]))
+        else:
+            ex.assume(is_instance(st, scls))
         locals_[names[0]] = self_val
         names = names[1:]
     elif fi.kind == "classmethod":
@@ -182,12 +189,14 @@ def run_path(fi, con, prefix):
         fr = setup(ex, fi, con)
         assume_axioms(ex, fr)
         ex.assume(ex.alloc[z3.IntVal(0)])      # object 0 (None) carries the global ghost state; it is never "fresh"
+        ex.closure_on = True
         ex.good_heap()
         is_init = fi.name == "__init__"
         ex.self_stack = [fr.self_val.t] if (fr.self_val is not None and fr.self_val.t is not None) else []
         speceval.assume_invariants(ex, fi, exclude=ex.self_stack if is_init else ())
         for c in con.requires:
             ex.assume(speceval.clause(ex, c, fr))
+        ex.good_heap()            # maps first touched by the precondition
         heap0, alloc0 = ex.snapshot()
         fr.old = (dict(heap0), alloc0, dict(fr.locals))
         entry_pc = list(ex.pc)
